@@ -242,9 +242,28 @@ def per_streamer_freshness(repo: Repo, chk: Check) -> None:
                     return out_
                 return true_binds(t.values[0])
             if isinstance(t, ast.UnaryOp) and isinstance(t.op, ast.Not):
-                return set()
+                return false_binds(t.operand)
             if isinstance(t, ast.IfExp):
                 return true_binds(t.test)
+            out_ = set()
+            for n in ast.walk(t):
+                if isinstance(n, ast.NamedExpr) and isinstance(n.target, ast.Name):
+                    out_.add(n.target.id)
+            return out_
+
+        def false_binds(t: ast.expr) -> set[str]:
+            """names bound whenever the test is false (`not a or not f(w := x)` is false only if every operand was evaluated)"""
+            if isinstance(t, ast.BoolOp):
+                if isinstance(t.op, ast.Or):
+                    out_: set[str] = set()
+                    for v in t.values:
+                        out_ |= false_binds(v)
+                    return out_
+                return false_binds(t.values[0])
+            if isinstance(t, ast.UnaryOp) and isinstance(t.op, ast.Not):
+                return true_binds(t.operand)
+            if isinstance(t, ast.IfExp):
+                return false_binds(t.test)
             out_ = set()
             for n in ast.walk(t):
                 if isinstance(n, ast.NamedExpr) and isinstance(n.target, ast.Name):
@@ -277,7 +296,7 @@ def per_streamer_freshness(repo: Repo, chk: Check) -> None:
                 elif isinstance(st, ast.If):
                     reads(st.test, defined, set())
                     da, ra = block(st.body, set(defined) | true_binds(st.test))
-                    db, rb = block(st.orelse, set(defined))
+                    db, rb = block(st.orelse, set(defined) | false_binds(st.test))
                     if ra and rb:
                         defined |= (da & db)
                     elif ra:
